@@ -24,14 +24,15 @@ BUDGET = {"quick": {"runs": 24000, "wall": 80}, "thorough": {"runs": 400000, "wa
 SHRINK_LISTS = ("ops",)
 PROBES = {"C20": ["stop:budget", "stop:patience", "stop:reject", "stop:tol", "step-after-stop",
                   "reset-after-stop", "reset-with-stale-patience", "exact-threshold", "batched-mixed",
-                  "driver:optimize", "driver:optimize-again", "driver:mpc", "driver:icp", "driver:second-call", "first-step-inf", "verbose"]}
+                  "driver:optimize", "driver:optimize-again", "driver:optimize-ended-by-exception", "driver:mpc", "driver:icp", "driver:second-call", "first-step-inf", "verbose"]}
 
 DYADIC = (0.5, 0.25, 1.0, 0.125, 2.0)
 KINDS = ("dec_big", "dec_small", "equal", "increase", "exact_thr", "below_tol", "rejected")
 
 
-class StepCap(Exception):
-    pass
+class StepCap(BaseException):
+    """Raised by the harness when a driver loop exceeds its step cap; a BaseException so that no `except Exception`
+    in the code under test can swallow it."""
 
 
 # --------------------------------------------------------------------------------------------
@@ -47,7 +48,7 @@ def generate(seed, tier, prop="C20"):
     dec = r.choice([0.0, 1e-3, 0.1]) if r.random() < 0.4 else (r.choice(DYADIC) if r.random() < 0.6
                                                              else rng.loguniform(r, 1e-6, 10.0))
     tol = r.choice([1e-5, 1e-3, 0.1, 0.0])
-    rep = r.choice(["float", "t64", "t32"]) if mode == "plateau" else r.choice(["float", "np64", "t64", "t32", "b64", "b32"])
+    rep = r.choice(["float", "t64", "t32"]) if mode == "plateau" else r.choice(["float", "np64", "nparr", "t64", "t32", "b64", "b32"])
     cfg = {"steps": steps, "patience": patience, "decreasing": dec, "tol": tol, "rep": rep,
            "batch": r.randint(2, 4) if rep.startswith("b") else 0, "verbose": r.random() < 0.2}
     plan = {"engine": NAME, "seed": seed, "mode": mode, "config": cfg, "ops": []}
@@ -164,6 +165,13 @@ def _mk(rep, vals):
     if rep == "np64":
         import numpy as np
         return np.float64(vals[0])
+    if rep == "nparr":
+        # the caller keeps ONE numpy buffer and overwrites it with every new loss
+        import numpy as np
+        if not hasattr(_mk, "buf") or _mk.buf is None:
+            _mk.buf = np.zeros((), dtype=np.float64)
+        _mk.buf[...] = vals[0]
+        return _mk.buf
     if rep == "t64":
         return torch.tensor(float(vals[0]), dtype=torch.float64)
     if rep == "t32":
@@ -172,6 +180,9 @@ def _mk(rep, vals):
 
 
 def _vals(x):
+    import numpy as np
+    if isinstance(x, np.ndarray):
+        return [float(v) for v in x.reshape(-1).tolist()]
     if torch.is_tensor(x):
         return [float(v) for v in x.reshape(-1).tolist()]
     return [float(x)]
@@ -269,6 +280,7 @@ def _exec_plateau(plan, out, tr):
 
 def _exec_bason(plan, out, tr):
     c = plan["config"]
+    _mk.buf = None
     d, tol, rep = float(c["decreasing"]), float(c["tol"]), c["rep"]
     b = max(1, c["batch"])
     mk = lambda: ReduceToBason(steps=c["steps"], patience=c["patience"], decreasing=d, tol=tol, verbose=bool(c.get("verbose")))
@@ -503,10 +515,12 @@ class _FlakySolver(torch.nn.Module):
     """Solver proxy: the real Cholesky/PINV, or a fault decided by the run's fault stream."""
     def __init__(self, inner, r, p_fault, out):
         super().__init__()
-        self.inner, self.r, self.p, self.out, self.calls = inner, r, p_fault, out, 0
+        self.inner, self.r, self.p, self.out, self.calls, self.cap = inner, r, p_fault, out, 0, 0
 
     def forward(self, A, b):
         self.calls += 1
+        if self.cap and self.calls > self.cap:
+            raise StepCap()
         x = self.r.random()
         if x < self.p / 2:
             self.out.fault("solver-raise")
@@ -546,18 +560,30 @@ def _drive_optimize(plan, out, tr):
             opt = pp.optim.LM(model, solver=solver, strategy=pp.optim.strategy.Adaptive(damping=1e-3),
                               reject=c["reject"])
         else:
-            solver = _FlakySolver(pp.optim.solver.PINV(), fr, 0.0, out)
+            solver = _FlakySolver(pp.optim.solver.PINV(), fr, c["p_fault"] if o["id"] % 2 else 0.0, out)
             opt = pp.optim.GN(model, solver=solver)
         sch = RecordingPlateau(opt, steps=steps, patience=c["patience"], decreasing=c["decreasing"],
                                cap=10 * steps + 5)
         import io, contextlib
+        solver.cap = (c["reject"] + 2) * (10 * steps + 5)
+        escaped = None
         try:
             with contextlib.redirect_stdout(io.StringIO()):
                 sch.optimize(inp)
         except StepCap:
-            raise Violation("C20.liveness", "StopOnPlateau.optimize made more than %d scheduler steps with "
-                            "steps=%d" % (sch.cap, steps), o["id"], "optimize:cap")
+            raise Violation("C20.liveness", "StopOnPlateau.optimize did not stop: more than %d scheduler steps or %d solver "
+                            "calls with steps=%d" % (sch.cap, solver.cap, steps), o["id"], "optimize:cap")
+        except RuntimeError as e:
+            if "injected solver failure" not in str(e):
+                raise
+            escaped = e         # GN lets a solver failure escape: the loop ended, by exception
+            out.probe("driver:optimize-ended-by-exception")
         n = len(sch.seen)
+        if escaped is not None:
+            if n > steps:
+                raise Violation("C20.budget", "optimize() made %d scheduler steps, budget steps=%d" % (n, steps), o["id"], "optimize:budget")
+            out.sim_time += n; out.ops += 1
+            continue
         # a stopped scheduler stays stopped: a second optimize() on the same object must not step again
         calls_before = solver.calls
         try:
